@@ -1,10 +1,38 @@
 /-
 M5 — the operation handlers of `KmipEngine` (engine.py l.1229-3226).
-Each handler is `Ctx → Engine → … → R (Engine × Data)`; a failing handler
+Each handler is `Ctx → Engine → … → R (Effect × Data)`; a failing handler
 returns no new engine (the caller keeps the old one).
 -/
 import KmipModel.Engine.Attr
 namespace Kmip
+
+/-- What a successful handler does to the store.  The batch loop applies it
+(`applyEffect`); a failing handler has no effect by construction. -/
+inductive Effect where
+  | none
+  /-- new rows; identifiers are assigned from the sequence in list order -/
+  | insert (os : List Obj)
+  /-- the row with identifier `o'.uid` is replaced by `o'` -/
+  | update (o' : Obj)
+  | delete (uid : Nat)
+  deriving Repr, DecidableEq, Inhabited
+
+def Store.insertAll (s : Store) : List Obj → Store × Option Nat
+  | [] => (s, none)
+  | o :: os =>
+    let (s1, u) := s.insert (fun n => { o with uid := n })
+    match Store.insertAll s1 os with
+    | (s2, some last) => (s2, some last)
+    | (s2, none) => (s2, some u)
+
+def applyEffect (e : Engine) : Effect → Engine
+  | .none => e
+  | .insert os =>
+    match e.store.insertAll os with
+    | (s, some last) => { e with store := s, placeholder := some (toString last) }
+    | (s, none) => { e with store := s }
+  | .update o' => { e with store := e.store.update o'.uid (fun _ => o') }
+  | .delete u => { e with store := e.store.delete u }
 
 /-- `unique_identifier = self._id_placeholder; if payload.unique_identifier: …` -/
 def uidOr (u : Option String) (ph : Option String) : Option String :=
@@ -43,8 +71,8 @@ def newObj (otype : Nat) (value : String) : Obj :=
     alg := none, len := none, format := none, subtype := none, value := value }
 
 /-- owner, initial date, column default of the policy name, identifier -/
-def finalize (c : Ctx) (e : Engine) (o : Obj) : Nat → Obj := fun u =>
-  { o with uid := u, owner := e.identity.user, initialDate := c.now,
+def finalize (c : Ctx) (e : Engine) (o : Obj) : Obj :=
+  { o with owner := e.identity.user, initialDate := c.now,
            policy := if o.policy = "" then "default" else o.policy }
 
 def cryptoErr {α} (cr : Crypto) : R α :=
@@ -53,67 +81,68 @@ def cryptoErr {α} (cr : Crypto) : R α :=
   | _ => ierr "cryptography engine raised"
 
 /-! ### Create -/
-def opCreate (c : Ctx) (e : Engine) (otype : Nat) (tmpl : Option Template) (cr : Crypto) : R (Engine × Data) := do
+def reqAlg (d : AttrDict) (msg : String) : R Nat :=
+  match d.get "Cryptographic Algorithm" with
+  | some (.single (.enum a)) => pure a
+  | some _ => ierr "algorithm value"
+  | none => kerr Rsn.invalidField msg
+
+def reqLen (d : AttrDict) (msg : String) : R Nat :=
+  match d.get "Cryptographic Length" with
+  | some (.single (.int l)) => if l < 0 then ierr "negative length" else pure l.toNat
+  | some _ => ierr "length value"
+  | none => kerr Rsn.invalidField msg
+
+def reqMask (d : AttrDict) (msg : String) : R Unit :=
+  if (d.get "Cryptographic Usage Mask").isNone then kerr Rsn.invalidField msg else pure ()
+
+def cryptoToken (cr : Crypto) : R String :=
+  match cr with
+  | .ok token => pure token
+  | other => cryptoErr other
+
+def cryptoPair (cr : Crypto) : R (String × String × Nat × Nat) :=
+  match cr with
+  | .ok2 a b f g => pure (a, b, f, g)
+  | other => cryptoErr other
+
+def opCreate (c : Ctx) (e : Engine) (otype : Nat) (tmpl : Option Template) (cr : Crypto) : R (Effect × Data) := do
   if otype != OT.symmetricKey then kerr Rsn.invalidField "Cannot create this object with the Create operation." else
   let d ← processTemplate? c e.version tmpl
-  let alg ← match d.get "Cryptographic Algorithm" with
-    | some (.single (.enum a)) => pure a
-    | some _ => ierr "algorithm value"
-    | none => kerr Rsn.invalidField "The cryptographic algorithm must be specified as an attribute."
-  let len ← match d.get "Cryptographic Length" with
-    | some (.single (.int l)) =>
-      if l < 0 then ierr "negative length" else pure l.toNat
-    | some _ => ierr "length value"
-    | none => kerr Rsn.invalidField "The cryptographic length must be specified as an attribute."
-  if (d.get "Cryptographic Usage Mask").isNone then
-    kerr Rsn.invalidField "The cryptographic usage mask must be specified as an attribute." else
-  match cr with
-  | .ok token =>
-    if hexBytes token * 8 != len then ierr "SymmetricKey.validate: length mismatch" else
-    let o := { newObj OT.symmetricKey token with alg := some alg, len := some len, format := some 1 }
-    let o ← setAttrs c o d
-    let (s, u) := e.store.insert (finalize c e o)
-    pure ({ e with store := s, placeholder := some (toString u) }, .uid (toString u))
-  | other => cryptoErr other
+  let alg ← reqAlg d "The cryptographic algorithm must be specified as an attribute."
+  let len ← reqLen d "The cryptographic length must be specified as an attribute."
+  reqMask d "The cryptographic usage mask must be specified as an attribute."
+  let token ← cryptoToken cr
+  if hexBytes token * 8 != len then ierr "SymmetricKey.validate: length mismatch" else
+  let o ← setAttrs c { newObj OT.symmetricKey token with alg := some alg, len := some len, format := some 1 } d
+  pure (.insert [finalize c e o], .uid (toString e.store.nextUid))
 
 /-! ### CreateKeyPair -/
 def mergeCommon (common specific : AttrDict) : AttrDict :=
   common.foldl (fun acc kv => if acc.any (·.1 == kv.1) then acc else acc ++ [kv]) specific
 
 def requireKeyAttrs (d : AttrDict) (which : String) : R (Nat × Nat) := do
-  let alg ← match d.get "Cryptographic Algorithm" with
-    | some (.single (.enum a)) => pure a
-    | some _ => ierr "algorithm value"
-    | none => kerr Rsn.invalidField s!"The cryptographic algorithm must be specified as an attribute for the {which} key."
-  let len ← match d.get "Cryptographic Length" with
-    | some (.single (.int l)) => if l < 0 then ierr "negative length" else pure l.toNat
-    | some _ => ierr "length value"
-    | none => kerr Rsn.invalidField s!"The cryptographic length must be specified as an attribute for the {which} key."
-  if (d.get "Cryptographic Usage Mask").isNone then
-    kerr Rsn.invalidField s!"The cryptographic usage mask must be specified as an attribute for the {which} key."
-  else pure (alg, len)
+  let alg ← reqAlg d s!"The cryptographic algorithm must be specified as an attribute for the {which} key."
+  let len ← reqLen d s!"The cryptographic length must be specified as an attribute for the {which} key."
+  reqMask d s!"The cryptographic usage mask must be specified as an attribute for the {which} key."
+  pure (alg, len)
 
 def opCreateKeyPair (c : Ctx) (e : Engine) (common priv pub : Option Template) (cr : Crypto) :
-    R (Engine × Data) := do
+    R (Effect × Data) := do
   let dpub ← processTemplate? c e.version pub
   let dpriv ← processTemplate? c e.version priv
   let dcom ← processTemplate? c e.version common
   let dpub := mergeCommon dcom dpub
   let dpriv := mergeCommon dcom dpriv
-  let (palg, plen) ← requireKeyAttrs dpub "public"
-  let (salg, slen) ← requireKeyAttrs dpriv "private"
-  if palg != salg then kerr Rsn.invalidField "The public and private key algorithms must be the same." else
-  if plen != slen then kerr Rsn.invalidField "The public and private key lengths must be the same." else
-  match cr with
-  | .ok2 pubTok privTok pubFmt privFmt =>
-    let po := { newObj OT.publicKey pubTok with alg := some palg, len := some plen, format := some pubFmt }
-    let so := { newObj OT.privateKey privTok with alg := some palg, len := some plen, format := some privFmt }
-    let po ← setAttrs c po dpub
-    let so ← setAttrs c so dpriv
-    let (s1, u1) := e.store.insert (finalize c e po)
-    let (s2, u2) := s1.insert (finalize c e so)
-    pure ({ e with store := s2, placeholder := some (toString u2) }, .keyPair (toString u2) (toString u1))
-  | other => cryptoErr other
+  let pk ← requireKeyAttrs dpub "public"
+  let sk ← requireKeyAttrs dpriv "private"
+  if pk.1 != sk.1 then kerr Rsn.invalidField "The public and private key algorithms must be the same." else
+  if pk.2 != sk.2 then kerr Rsn.invalidField "The public and private key lengths must be the same." else
+  let t ← cryptoPair cr
+  let po ← setAttrs c { newObj OT.publicKey t.1 with alg := some pk.1, len := some pk.2, format := some t.2.2.1 } dpub
+  let so ← setAttrs c { newObj OT.privateKey t.2.1 with alg := some pk.1, len := some pk.2, format := some t.2.2.2 } dpriv
+  pure (.insert [finalize c e po, finalize c e so],
+        .keyPair (toString (e.store.nextUid + 1)) (toString e.store.nextUid))
 
 /-! ### Register -/
 def registrable (otype : Nat) : Bool :=
@@ -121,16 +150,14 @@ def registrable (otype : Nat) : Bool :=
   || otype == OT.splitKey || otype == OT.secretData || otype == OT.opaqueData
 
 def opRegister (c : Ctx) (e : Engine) (otype : Nat) (tmpl : Option Template) (obj : Option RegObj) :
-    R (Engine × Data) := do
+    R (Effect × Data) := do
   if !registrable otype then kerr Rsn.invalidField "The object type is not supported." else
   match obj with
   | none => kerr Rsn.invalidField "Cannot register a secret in absentia."
   | some ro =>
     let d ← processTemplate? c e.version tmpl
-    let o := { newObj ro.otype ro.value with alg := ro.alg, len := ro.len, format := ro.format, subtype := ro.subtype }
-    let o ← setAttrs c o d
-    let (s, u) := e.store.insert (finalize c e o)
-    pure ({ e with store := s, placeholder := some (toString u) }, .uid (toString u))
+    let o ← setAttrs c { newObj ro.otype ro.value with alg := ro.alg, len := ro.len, format := ro.format, subtype := ro.subtype } d
+    pure (.insert [finalize c e o], .uid (toString e.store.nextUid))
 
 /-! ### DeriveKey -/
 def derivable (otype : Nat) : Bool :=
@@ -148,39 +175,43 @@ def deriveBases (c : Ctx) (e : Engine) : List String → R (List Obj)
       let rest ← deriveBases c e us
       pure (o :: rest)
 
+def deriveLen (d : AttrDict) : R Nat :=
+  match d.get "Cryptographic Length" with
+  | some (.single (.int l)) =>
+    if l < 0 then ierr "negative length" else
+    if l.toNat % 8 == 0 then pure (l.toNat / 8)
+    else kerr Rsn.invalidField "The cryptographic length must be a multiple of 8."
+  | some _ => ierr "length value"
+  | none => kerr Rsn.invalidField "The cryptographic length must be provided in the template attribute."
+
+def deriveAlg (otype : Nat) (d : AttrDict) : R (Option Nat) :=
+  if otype == OT.symmetricKey then
+    match d.get "Cryptographic Algorithm" with
+    | some (.single (.enum a)) => pure (some a)
+    | some _ => ierr "algorithm value"
+    | none => kerr Rsn.invalidField "The cryptographic algorithm must be provided."
+  else pure none
+
+def derivedObj (otype : Nat) (alg : Option Nat) (bytes : Nat) (value : String) : Obj :=
+  if otype == OT.symmetricKey then
+    { newObj OT.symmetricKey value with alg := alg, len := some (bytes * 8), format := some 1 }
+  else { newObj OT.secretData value with subtype := some 2 }
+
 def opDeriveKey (c : Ctx) (e : Engine) (otype : Nat) (uids : List String) (tmpl : Option Template)
-    (cr : Crypto) : R (Engine × Data) := do
+    (cr : Crypto) : R (Effect × Data) := do
   let d ← processTemplate? c e.version tmpl
   if !(otype == OT.symmetricKey || otype == OT.secretData) then
     kerr Rsn.invalidField "Key derivation can only generate a SymmetricKey or SecretData object." else
   let bases ← deriveBases c e uids
   if bases.isEmpty then ierr "existing_objects[0]: list index out of range" else
-  let bytes ← match d.get "Cryptographic Length" with
-    | some (.single (.int l)) =>
-      if l < 0 then ierr "negative length" else
-      if l.toNat % 8 == 0 then pure (l.toNat / 8)
-      else kerr Rsn.invalidField "The cryptographic length must be a multiple of 8."
-    | some _ => ierr "length value"
-    | none => kerr Rsn.invalidField "The cryptographic length must be provided in the template attribute."
-  let alg ← if otype == OT.symmetricKey then
-      match d.get "Cryptographic Algorithm" with
-      | some (.single (.enum a)) => pure (some a)
-      | some _ => ierr "algorithm value"
-      | none => kerr Rsn.invalidField "The cryptographic algorithm must be provided."
-    else pure none
-  match cr with
-  | .ok token =>
-    if bytes > hexBytes token then
-      kerr Rsn.cryptographicFailure "The specified length exceeds the output of the derivation method." else
-    let value := (token.take (2 * bytes)).toString
-    let o := if otype == OT.symmetricKey then
-        { newObj OT.symmetricKey value with alg := alg, len := some (bytes * 8), format := some 1 }
-      else { newObj OT.secretData value with subtype := some 2 }
-    let d := if otype == OT.secretData then d.erase "Cryptographic Length" else d
-    let o ← setAttrs c o d
-    let (s, u) := e.store.insert (finalize c e o)
-    pure ({ e with store := s, placeholder := some (toString u) }, .uid (toString u))
-  | other => cryptoErr other
+  let bytes ← deriveLen d
+  let alg ← deriveAlg otype d
+  let token ← cryptoToken cr
+  if bytes > hexBytes token then
+    kerr Rsn.cryptographicFailure "The specified length exceeds the output of the derivation method." else
+  let o ← setAttrs c (derivedObj otype alg bytes (token.take (2 * bytes)).toString)
+            (if otype == OT.secretData then d.erase "Cryptographic Length" else d)
+  pure (.insert [finalize c e o], .uid (toString e.store.nextUid))
 
 /-! ### Locate -/
 
@@ -291,11 +322,20 @@ def slice {α} (l : List α) (offset maxItems : Option Int) : List α :=
   | some m => l.take m.toNat
   | none => l
 
-def opLocate (c : Ctx) (e : Engine) (maxItems offset : Option Int) (attrs : List TAttr) : R (Engine × Data) := do
-  let visible := listWithAccess c e Op.locate
-  let matched ← if attrs.isEmpty then pure visible else visible.filterM (fun o => matchesObj c o attrs)
-  let sorted := sortDesc matched
-  pure (e, .uids ((slice sorted offset maxItems).map (fun o => toString o.uid)))
+/-- the filtering loop (skipped entirely when the request has no attributes) -/
+def locateFilter (c : Ctx) (attrs : List TAttr) : List Obj → R (List Obj)
+  | [] => pure []
+  | o :: os => do
+    let keep ← matchesObj c o attrs
+    let rest ← locateFilter c attrs os
+    pure (if keep then o :: rest else rest)
+
+def locateMatched (c : Ctx) (visible : List Obj) (attrs : List TAttr) : R (List Obj) :=
+  if attrs.isEmpty then pure visible else locateFilter c attrs visible
+
+def opLocate (c : Ctx) (e : Engine) (maxItems offset : Option Int) (attrs : List TAttr) : R (Effect × Data) := do
+  let matched ← locateMatched c (listWithAccess c e Op.locate) attrs
+  pure (.none, .uids ((slice (sortDesc matched) offset maxItems).map (fun o => toString o.uid)))
 
 /-! ### Get -/
 def coreObject (o : Obj) (value : String) (wrapped : Bool) (uid : String) : R Data :=
@@ -307,60 +347,71 @@ def coreObject (o : Obj) (value : String) (wrapped : Bool) (uid : String) : R Da
     pure (.object o.otype uid value o.alg o.len o.format none wrapped)
   else kerr Rsn.invalidField "The object type is not supported."
 
-def opGet (c : Ctx) (e : Engine) (uid : Option String) (format : Option Nat) (compression : Bool)
-    (wrap : Option WrapSpec) (cr : Crypto) : R (Engine × Data) := do
-  let uid := uidOr uid e.placeholder
-  if compression then kerr Rsn.keyCompressionTypeNotSupported "Key compression is not supported." else
-  let o ← getWithAccess c e uid Op.get
+def checkFormat (o : Obj) (format : Option Nat) : R Unit :=
   match format with
   | some f =>
     if !o.isKey then kerr Rsn.keyFormatTypeNotSupported "Key format is not applicable to the specified object." else
     if o.format != some f then kerr Rsn.keyFormatTypeNotSupported "Key format conversion is unsupported." else pure ()
   | none => pure ()
+
+def getWrapKey (c : Ctx) (e : Engine) (ku : String) : R Obj :=
+  match getWithAccess c e (some ku) Op.get with
+  | .ok k => pure k
+  | .error _ => kerr Rsn.itemNotFound "Wrapping key does not exist."
+
+def wrapGuards (c : Ctx) (e : Engine) (o : Obj) (w : WrapSpec) (cr : Crypto) : R String := do
+  if w.wrappingMethod != 1 then kerr Rsn.operationNotSupported "Wrapping method is not supported." else
+  match w.encKeyUid with
+  | some ku =>
+    let key ← getWrapKey c e ku
+    if key.otype != OT.symmetricKey then
+      kerr Rsn.illegalOperation "The wrapping encryption key is not a key." else
+    if key.state != some St.active then
+      kerr Rsn.permissionDenied "Encryption key must be activated to be used for key wrapping." else
+    if !hasBit (key.mask.getD 0) Mask.wrapKey then
+      kerr Rsn.permissionDenied "The WrapKey bit must be set." else
+    if w.attributeNames > 0 then kerr Rsn.illegalOperation "Wrapping object attributes is not supported." else
+    if w.encodingOption != some 1 then kerr Rsn.encodingOptionError "Encoding option is not supported." else
+    if !w.encKeyHasParams then ierr "encryption_key_params is None" else
+    let token ← cryptoToken cr
+    if o.otype == OT.certificate || o.otype == OT.opaqueData then ierr "core secret has no key_block" else
+    pure token
+  | none =>
+    if w.macKeyInfo then
+      kerr Rsn.permissionDenied "Key wrapping with MAC/signing key information is not supported."
+    else kerr Rsn.permissionDenied "Either the encryption key information or the MAC/signature key information must be specified."
+
+def opGet (c : Ctx) (e : Engine) (uid : Option String) (format : Option Nat) (compression : Bool)
+    (wrap : Option WrapSpec) (cr : Crypto) : R (Effect × Data) := do
+  let uid := uidOr uid e.placeholder
+  if compression then kerr Rsn.keyCompressionTypeNotSupported "Key compression is not supported." else
+  let o ← getWithAccess c e uid Op.get
+  checkFormat o format
   match wrap with
-  | none => do pure (e, ← coreObject o o.value false (showUid uid))
+  | none =>
+    let data ← coreObject o o.value false (showUid uid)
+    pure (.none, data)
   | some w =>
-    if w.wrappingMethod != 1 then kerr Rsn.operationNotSupported "Wrapping method is not supported." else
-    match w.encKeyUid with
-    | some ku =>
-      let key ← match getWithAccess c e (some ku) Op.get with
-        | .ok k => pure k
-        | .error _ => kerr Rsn.itemNotFound "Wrapping key does not exist."
-      if key.otype != OT.symmetricKey then
-        kerr Rsn.illegalOperation "The wrapping encryption key is not a key." else
-      if key.state != some St.active then
-        kerr Rsn.permissionDenied "Encryption key must be activated to be used for key wrapping." else
-      if !hasBit (key.mask.getD 0) Mask.wrapKey then
-        kerr Rsn.permissionDenied "The WrapKey bit must be set." else
-      if w.attributeNames > 0 then kerr Rsn.illegalOperation "Wrapping object attributes is not supported." else
-      if w.encodingOption != some 1 then kerr Rsn.encodingOptionError "Encoding option is not supported." else
-      if !w.encKeyHasParams then ierr "encryption_key_params is None" else
-      match cr with
-      | .ok token =>
-        if o.otype == OT.certificate || o.otype == OT.opaqueData then ierr "core secret has no key_block" else
-        pure (e, ← coreObject o token true (showUid uid))
-      | other => cryptoErr other
-    | none =>
-      if w.macKeyInfo then
-        kerr Rsn.permissionDenied "Key wrapping with MAC/signing key information is not supported."
-      else kerr Rsn.permissionDenied "Either the encryption key information or the MAC/signature key information must be specified."
+    let token ← wrapGuards c e o w cr
+    let data ← coreObject o token true (showUid uid)
+    pure (.none, data)
 
 /-! ### GetAttributes / GetAttributeList -/
-def opGetAttributes (c : Ctx) (e : Engine) (uid : Option String) (names : List String) : R (Engine × Data) := do
+def opGetAttributes (c : Ctx) (e : Engine) (uid : Option String) (names : List String) : R (Effect × Data) := do
   let uid := uidOr uid e.placeholder
   let o ← getWithAccess c e uid Op.getAttributes
   let as ← getAttrs c e.version o names
-  pure (e, .attrs (showUid uid) as)
+  pure (.none, .attrs (showUid uid) as)
 
-def opGetAttributeList (c : Ctx) (e : Engine) (uid : Option String) : R (Engine × Data) := do
+def opGetAttributeList (c : Ctx) (e : Engine) (uid : Option String) : R (Effect × Data) := do
   let uid := uidOr uid e.placeholder
   let o ← getWithAccess c e uid Op.getAttributeList
   let as ← getAttrs c e.version o []
   -- the response payload keeps the first occurrence of each name
-  pure (e, .names (showUid uid) (as.map (·.name)).eraseDups)
+  pure (.none, .names (showUid uid) (as.map (·.name)).eraseDups)
 
 /-! ### Activate / Revoke / Destroy -/
-def opActivate (c : Ctx) (e : Engine) (uid : Option String) : R (Engine × Data) := do
+def opActivate (c : Ctx) (e : Engine) (uid : Option String) : R (Effect × Data) := do
   let uid := uidOr uid e.placeholder
   let o ← getWithAccess c e uid Op.activate
   match o.state with
@@ -368,10 +419,9 @@ def opActivate (c : Ctx) (e : Engine) (uid : Option String) : R (Engine × Data)
   | some s =>
     if s != St.preActive then
       kerr Rsn.permissionDenied "The object state is not pre-active and cannot be activated."
-    else pure ({ e with store := e.store.update o.uid (fun o => { o with state := some St.active }) },
-               .uid (showUid uid))
+    else pure (.update { o with state := some St.active }, .uid (showUid uid))
 
-def opRevoke (c : Ctx) (e : Engine) (uid : Option String) (code : Option Nat) : R (Engine × Data) := do
+def opRevoke (c : Ctx) (e : Engine) (uid : Option String) (code : Option Nat) : R (Effect × Data) := do
   match code with
   | none => kerr Rsn.invalidField "revocation reason code must be specified"
   | some code =>
@@ -382,20 +432,19 @@ def opRevoke (c : Ctx) (e : Engine) (uid : Option String) (code : Option Nat) : 
     | some s =>
       if code == 2 then
         let s' := if s == St.destroyed then St.destroyedCompromised else St.compromised
-        pure ({ e with store := e.store.update o.uid (fun o => { o with state := some s' }) }, .uid (showUid uid))
+        pure (.update { o with state := some s' }, .uid (showUid uid))
       else if s != St.active then
         kerr Rsn.illegalOperation "The object is not active and cannot be revoked with reason other than KEY_COMPROMISE"
-      else pure ({ e with store := e.store.update o.uid (fun o => { o with state := some St.deactivated }) },
-                 .uid (showUid uid))
+      else pure (.update { o with state := some St.deactivated }, .uid (showUid uid))
 
-def opDestroy (c : Ctx) (e : Engine) (uid : Option String) : R (Engine × Data) := do
+def opDestroy (c : Ctx) (e : Engine) (uid : Option String) : R (Effect × Data) := do
   let uid := uidOr uid e.placeholder
   let o ← getWithAccess c e uid Op.destroy
   if o.state == some St.active then kerr Rsn.permissionDenied "Object is active and cannot be destroyed."
-  else pure ({ e with store := e.store.delete o.uid }, .uid (showUid uid))
+  else pure (.delete o.uid, .uid (showUid uid))
 
 /-! ### Query / DiscoverVersions -/
-def opQuery (e : Engine) (functions : List Nat) : R (Engine × Data) :=
+def opQuery (e : Engine) (functions : List Nat) : R (Effect × Data) :=
   -- `payload.query_functions` is `None` for an empty list: `x in None` is a TypeError
   if functions.isEmpty then ierr "argument of type 'NoneType' is not iterable" else
   let base := [Op.create, Op.createKeyPair, Op.register, Op.deriveKey, Op.locate, Op.get, Op.getAttributes,
@@ -404,11 +453,11 @@ def opQuery (e : Engine) (functions : List Nat) : R (Engine × Data) :=
       base ++ (if e.version ≥ 11 then [Op.discoverVersions] else [])
            ++ (if e.version ≥ 12 then [Op.encrypt, Op.decrypt, Op.sign, Op.signatureVerify, Op.mac] else [])
     else []
-  pure (e, .ops ops (functions.contains 3))
+  pure (.none, .ops ops (functions.contains 3))
 
-def opDiscoverVersions (c : Ctx) (e : Engine) (versions : List Nat) : R (Engine × Data) :=
-  if versions.isEmpty then pure (e, .versions c.supportedVersions)
-  else pure (e, .versions (versions.filter (fun v => c.supportedVersions.contains v)))
+def opDiscoverVersions (c : Ctx) (e : Engine) (versions : List Nat) : R (Effect × Data) :=
+  if versions.isEmpty then pure (.none, .versions c.supportedVersions)
+  else pure (.none, .versions (versions.filter (fun v => c.supportedVersions.contains v)))
 
 /-! ### cryptographic operations -/
 def cryptoGuard (c : Ctx) (e : Engine) (uid : Option String) (hasParams : Bool) (kind bit : Nat) : R Obj := do
@@ -419,35 +468,35 @@ def cryptoGuard (c : Ctx) (e : Engine) (uid : Option String) (hasParams : Bool) 
   if !hasBit (o.mask.getD 0) bit then kerr Rsn.permissionDenied "The usage mask bit must be set." else
   pure o
 
-def cryptoResult (e : Engine) (uid : Option String) (cr : Crypto) : R (Engine × Data) :=
+def cryptoResult (uid : Option String) (cr : Crypto) : R (Effect × Data) :=
   match cr with
-  | .ok t => pure (e, .crypto (showUid uid) (.ok t))
-  | .verdict b => pure (e, .crypto (showUid uid) (.verdict b))
+  | .ok t => pure (.none, .crypto (showUid uid) (.ok t))
+  | .verdict b => pure (.none, .crypto (showUid uid) (.verdict b))
   | other => cryptoErr other
 
-def opEncrypt (c : Ctx) (e : Engine) (uid : Option String) (hasParams : Bool) (cr : Crypto) : R (Engine × Data) := do
+def opEncrypt (c : Ctx) (e : Engine) (uid : Option String) (hasParams : Bool) (cr : Crypto) : R (Effect × Data) := do
   let uid := uidOr uid e.placeholder
   let _ ← cryptoGuard c e uid hasParams OT.symmetricKey Mask.encrypt
-  cryptoResult e uid cr
+  cryptoResult uid cr
 
-def opDecrypt (c : Ctx) (e : Engine) (uid : Option String) (hasParams : Bool) (cr : Crypto) : R (Engine × Data) := do
+def opDecrypt (c : Ctx) (e : Engine) (uid : Option String) (hasParams : Bool) (cr : Crypto) : R (Effect × Data) := do
   let uid := uidOr uid e.placeholder
   let _ ← cryptoGuard c e uid hasParams OT.symmetricKey Mask.decrypt
-  cryptoResult e uid cr
+  cryptoResult uid cr
 
-def opSign (c : Ctx) (e : Engine) (uid : Option String) (hasParams : Bool) (cr : Crypto) : R (Engine × Data) := do
+def opSign (c : Ctx) (e : Engine) (uid : Option String) (hasParams : Bool) (cr : Crypto) : R (Effect × Data) := do
   let uid := uidOr uid e.placeholder
   let _ ← cryptoGuard c e uid hasParams OT.privateKey Mask.sign
-  cryptoResult e uid cr
+  cryptoResult uid cr
 
 def opSignatureVerify (c : Ctx) (e : Engine) (uid : Option String) (hasParams : Bool) (cr : Crypto) :
-    R (Engine × Data) := do
+    R (Effect × Data) := do
   let uid := uidOr uid e.placeholder
   let _ ← cryptoGuard c e uid hasParams OT.publicKey Mask.verify
-  cryptoResult e uid cr
+  cryptoResult uid cr
 
 def opMac (c : Ctx) (e : Engine) (uid : Option String) (paramAlg : Option Nat) (hasData : Bool) (cr : Crypto) :
-    R (Engine × Data) := do
+    R (Effect × Data) := do
   let uid := uidOr uid e.placeholder
   let o ← getWithAccess c e uid Op.get
   if paramAlg.isNone && !(o.isKey && o.alg.isSome) then
@@ -462,111 +511,131 @@ def opMac (c : Ctx) (e : Engine) (uid : Option String) (paramAlg : Option Nat) (
     | none => ierr "no attribute cryptographic_usage_masks"
     | some m =>
       if !hasBit m Mask.macGenerate then kerr Rsn.permissionDenied "MAC Generate must be set." else
-      cryptoResult e uid cr
+      cryptoResult uid cr
 
 /-! ### SetAttribute / ModifyAttribute / DeleteAttribute -/
-def opSetAttribute (c : Ctx) (e : Engine) (uid : Option String) (a : TAttr) : R (Engine × Data) := do
+def opSetAttribute (c : Ctx) (e : Engine) (uid : Option String) (a : TAttr) : R (Effect × Data) := do
   let uid := uidOr uid e.placeholder
   let o ← getWithAccess c e uid Op.setAttribute
   if (← c.isMultivalued a.name) then kerr Rsn.multiValuedAttribute "The attribute is multi-valued." else
   if !(← c.isModifiable a.name) then kerr Rsn.readOnlyAttribute "The attribute is read-only." else
   let o' ← setAttrs c o [(a.name, .single a.value)]
-  pure ({ e with store := e.store.update o.uid (fun _ => o') }, .uid (showUid uid))
+  pure (.update { o' with uid := o.uid }, .uid (showUid uid))
 
 def gotLength : Option Got → R Nat
   | some (.multi vs) => pure vs.length
   | some (.single _) => ierr "len() of a single value"
   | none => ierr "len(None)"
 
-def opModifyAttribute (c : Ctx) (e : Engine) (uid : Option String) (attr current new : Option TAttr) :
-    R (Engine × Data) := do
-  let uid := uidOr uid e.placeholder
-  let o ← getWithAccess c e uid Op.modifyAttribute
-  if e.version ≥ 20 then
+def nthAttr (as : List TAttr) (i : Nat) (site : String) : R TAttr :=
+  match as[i]? with
+  | some m => pure m
+  | none => ierr site
+
+/-- 2.0: verify that the current attribute (or any value) exists -/
+def checkCurrent (o : Obj) (name : String) (current : Option TAttr) : R Unit :=
+  match current with
+  | none =>
+    match getAttr o name with
+    | .ok none => kerr Rsn.attributeNotFound "The attribute is not set on the managed object."
+    | .ok (some _) => pure ()
+    | .error err => .error err
+  | some cur =>
+    match attrIndex o name cur.value with
+    | .ok none => kerr Rsn.attributeNotFound "The specified current attribute could not be found on the managed object."
+    | .ok (some _) => pure ()
+    | .error err => .error err
+
+def currentIndex (o : Obj) (name : String) (current : Option TAttr) : R Nat :=
+  match current with
+  | none => kerr Rsn.attributeInstanceNotFound "The attribute is multivalued so the current attribute must be specified."
+  | some cur =>
+    match attrIndex o name cur.value with
+    | .ok none => kerr Rsn.attributeNotFound "The specified current attribute could not be found on the managed object."
+    | .ok (some i) => pure i
+    | .error err => .error err
+
+/-- the modified object and the attribute echoed in the response -/
+def modifyCore (c : Ctx) (ver : Nat) (o : Obj) (attr current new : Option TAttr) : R (Obj × Option TAttr) := do
+  if ver ≥ 20 then
     match new with
     | none => ierr "payload.new_attribute is None"
     | some nw =>
-      let name := nw.name
-      if !(← c.isModifiable name) then kerr Rsn.permissionDenied "The attribute is read-only and cannot be modified." else
-      if (← c.isMultivalued name) then
-        match current with
-        | none => kerr Rsn.attributeInstanceNotFound "The attribute is multivalued so the current attribute must be specified."
-        | some cur =>
-          match (← attrIndex o name cur.value) with
-          | none => kerr Rsn.attributeNotFound "The specified current attribute could not be found on the managed object."
-          | some i =>
-            let o' ← setByIndex o name nw.value i
-            pure ({ e with store := e.store.update o.uid (fun _ => o') }, .uidAttr (showUid uid) none)
+      if !(← c.isModifiable nw.name) then kerr Rsn.permissionDenied "The attribute is read-only and cannot be modified." else
+      if (← c.isMultivalued nw.name) then
+        let i ← currentIndex o nw.name current
+        let o' ← setByIndex o nw.name nw.value i
+        pure (o', none)
       else
-        match current with
-        | none =>
-          match (← getAttr o name) with
-          | none => kerr Rsn.attributeNotFound "The attribute is not set on the managed object."
-          | some _ => pure ()
-        | some cur =>
-          match (← attrIndex o name cur.value) with
-          | none => kerr Rsn.attributeNotFound "The specified current attribute could not be found on the managed object."
-          | some _ => pure ()
-        let o' ← setSingle o name nw.value
-        pure ({ e with store := e.store.update o.uid (fun _ => o') }, .uidAttr (showUid uid) none)
+        checkCurrent o nw.name current
+        let o' ← setSingle o nw.name nw.value
+        pure (o', none)
   else
     match attr with
     | none => ierr "payload.attribute is None"
     | some a =>
-      let name := a.name
-      if !(← c.isModifiable name) then kerr Rsn.permissionDenied "The attribute is read-only and cannot be modified." else
-      if (← c.isMultivalued name) then
-        let i : Int := a.index.getD 0
-        let n ← gotLength (← getAttr o name)
-        if 0 ≤ i && i < n then
-          let o' ← setByIndex o name a.value i.toNat
-          let as ← getAttrs c e.version o' [name]
-          match as[i.toNat]? with
-          | some m => pure ({ e with store := e.store.update o.uid (fun _ => o') }, .uidAttr (showUid uid) (some m))
-          | none => ierr "existing_attributes[attribute_index]"
+      if !(← c.isModifiable a.name) then kerr Rsn.permissionDenied "The attribute is read-only and cannot be modified." else
+      if (← c.isMultivalued a.name) then
+        let n ← gotLength (← getAttr o a.name)
+        if 0 ≤ a.index.getD 0 && a.index.getD 0 < n then
+          let o' ← setByIndex o a.name a.value (a.index.getD 0).toNat
+          let as ← getAttrs c ver o' [a.name]
+          let m ← nthAttr as (a.index.getD 0).toNat "existing_attributes[attribute_index]"
+          pure (o', some m)
         else kerr Rsn.itemNotFound "No matching attribute instance could be found for the specified attribute index."
       else
         if a.index.isSome then kerr Rsn.invalidField "The attribute index cannot be specified for a single-valued attribute." else
-        let existing ← getAttrs c e.version o [name]
+        let existing ← getAttrs c ver o [a.name]
         if existing.isEmpty then kerr Rsn.invalidField "The attribute is not set on the managed object." else
-        let o' ← setSingle o name a.value
-        let as ← getAttrs c e.version o' [name]
-        match as[0]? with
-        | some m => pure ({ e with store := e.store.update o.uid (fun _ => o') }, .uidAttr (showUid uid) (some m))
-        | none => ierr "existing_attributes[0]"
+        let o' ← setSingle o a.name a.value
+        let as ← getAttrs c ver o' [a.name]
+        let m ← nthAttr as 0 "existing_attributes[0]"
+        pure (o', some m)
 
-def opDeleteAttribute (c : Ctx) (e : Engine) (uid : Option String) (name : Option String) (index : Option Int)
-    (current : Option TAttr) (reference : Option String) : R (Engine × Data) := do
+def opModifyAttribute (c : Ctx) (e : Engine) (uid : Option String) (attr current new : Option TAttr) :
+    R (Effect × Data) := do
   let uid := uidOr uid e.placeholder
-  let o ← getWithAccess c e uid Op.deleteAttribute
-  if e.version ≥ 20 then
+  let o ← getWithAccess c e uid Op.modifyAttribute
+  let r ← modifyCore c e.version o attr current new
+  pure (.update { r.1 with uid := o.uid }, .uidAttr (showUid uid) r.2)
+
+/-- 1.x: the attribute instance echoed by DeleteAttribute -/
+def deletedAttr (existing : List TAttr) (idx : Int) : R (Option TAttr) :=
+  if existing.length > 0 then
+    if idx == 0 then pure existing[0]?
+    else if idx < existing.length then
+      (if idx ≥ 0 then pure existing[idx.toNat]?
+       else if (existing.length : Int) + idx ≥ 0 then pure existing[((existing.length : Int) + idx).toNat]?
+       else ierr "list index out of range")
+    else kerr Rsn.itemNotFound "Could not locate the attribute instance with the specified index"
+  else pure none
+
+def deleteCore (c : Ctx) (ver : Nat) (o : Obj) (name : Option String) (index : Option Int)
+    (current : Option TAttr) (reference : Option String) : R (Obj × Option TAttr) := do
+  if ver ≥ 20 then
     match current, reference with
     | some cur, _ =>
       let o' ← delAttr c o cur.name none (some cur.value)
-      pure ({ e with store := e.store.update o.uid (fun _ => o') }, .uidAttr (showUid uid) none)
+      pure (o', none)
     | none, some r =>
       let o' ← delAttr c o r none none
-      pure ({ e with store := e.store.update o.uid (fun _ => o') }, .uidAttr (showUid uid) none)
+      pure (o', none)
     | none, none => kerr Rsn.invalidMessage "The DeleteAttribute request must specify the current attribute or an attribute reference."
   else
     match name with
     | none => kerr Rsn.invalidMessage "The DeleteAttribute request must specify the attribute name."
     | some nm =>
       if nm = "" then kerr Rsn.invalidMessage "The DeleteAttribute request must specify the attribute name." else
-      let idx : Int := match index with
-        | some i => i
-        | none => 0
-      let existing ← getAttrs c e.version o [nm]
-      let deleted ← if existing.length > 0 then
-          if idx == 0 then pure existing[0]?
-          else if idx < existing.length then
-            (if idx ≥ 0 then pure existing[idx.toNat]?
-             else
-               let j : Int := (existing.length : Int) + idx
-               if j ≥ 0 then pure existing[j.toNat]? else ierr "list index out of range")
-          else kerr Rsn.itemNotFound "Could not locate the attribute instance with the specified index"
-        else pure none
-      let o' ← delAttr c o nm (some idx) none
-      pure ({ e with store := e.store.update o.uid (fun _ => o') }, .uidAttr (showUid uid) deleted)
+      let existing ← getAttrs c ver o [nm]
+      let deleted ← deletedAttr existing (index.getD 0)
+      let o' ← delAttr c o nm (some (index.getD 0)) none
+      pure (o', deleted)
+
+def opDeleteAttribute (c : Ctx) (e : Engine) (uid : Option String) (name : Option String) (index : Option Int)
+    (current : Option TAttr) (reference : Option String) : R (Effect × Data) := do
+  let uid := uidOr uid e.placeholder
+  let o ← getWithAccess c e uid Op.deleteAttribute
+  let r ← deleteCore c e.version o name index current reference
+  pure (.update { r.1 with uid := o.uid }, .uidAttr (showUid uid) r.2)
 
 end Kmip
